@@ -58,10 +58,13 @@ type Contract struct {
 	MaxPaths int
 	Alias    [][2]string
 	Lemma    bool
+	Table    bool
+	KeyType  string
+	Checks   []*Clause
 	Decreases *Clause
 }
 
-var clauseHead = regexp.MustCompile(`^(mode|ghost|requires|ensures|modifies|loop|bound|iface|maynil|inline|trusted|panics-if|nosafety|maxpaths|alias|decreases)\b(.*)$`)
+var clauseHead = regexp.MustCompile(`^(keys|check|mode|ghost|requires|ensures|modifies|loop|bound|iface|maynil|inline|trusted|panics-if|nosafety|maxpaths|alias|decreases)\b(.*)$`)
 var tagRe = regexp.MustCompile(`^\s*\[([^\]]+)\]\s*(.*)$`)
 
 // ParseContractFile parses the //@ lines of one file. pkgPath is the import path of its package.
@@ -98,6 +101,15 @@ func ParseContractFile(path, pkgPath string) ([]*Contract, error) {
 		}
 		if i := strings.Index(t, " // "); i >= 0 {
 			t = strings.TrimSpace(t[:i])
+		}
+		if strings.HasPrefix(t, "table ") {
+			if err := flush(); err != nil {
+				return nil, err
+			}
+			name := strings.TrimSpace(strings.TrimPrefix(t, "table "))
+			cur = &Contract{PkgPath: pkgPath, Func: name, Mode: "bv", Bounds: map[string]int{}, Ifaces: map[string]string{}, File: path, Props: map[string]bool{}, Table: true, Lemma: true}
+			cur.Key = "table:" + pkgPath + "." + name
+			continue
 		}
 		if strings.HasPrefix(t, "lemma ") {
 			if err := flush(); err != nil {
@@ -206,6 +218,18 @@ func (c *Contract) addClause(head, rest, where string) error {
 			return fmt.Errorf("%s: ghost wants `name type`", where)
 		}
 		c.Ghosts = append(c.Ghosts, Ghost{f[0], f[1]})
+	case "keys":
+		c.KeyType = strings.TrimSpace(rest)
+	case "check":
+		props, label, body := splitTags(rest)
+		cl := &Clause{Props: props, Label: label, Text: strings.TrimSpace(body)}
+		if cl.Label == "" {
+			cl.Label = cl.Text
+		}
+		for _, p := range props {
+			c.Props[p] = true
+		}
+		c.Checks = append(c.Checks, cl)
 	case "decreases":
 		x, err := parseExpr(strings.TrimSpace(rest), where)
 		if err != nil {
